@@ -56,7 +56,62 @@ def kcaseP : P KCase := do
   pure { alg := alg, kDefault := kd, queryK := qk, sim := sim, term := term, cfg := cfg, q := q,
          gcRev := gcRev, scheds := scheds, pops := pops }
 
+def numOfJson (j : Json) : Option Float := j.asF64Bits?.map (fun b => Float.ofBits b.toUInt64)
+
+/-- `kterm <json> <k> <size>`: `KspTerminationCriteria` from configuration, `Display`,
+`terminate_search(k, size)` -/
+def runKterm : P String := do
+  let j ← JsonProto.json
+  let k ← nat
+  let n ← nat
+  match KspTerm.ofJson j with
+  | none => pure "cfgerr"
+  | some t => pure (joinSp ["ok", JsonProto.hexOfStr t.display, if t.terminate k n then "1" else "0"])
+
+/-- `ksim <json> <edge lengths> <route a> <route b>`: `RouteSimilarityFunction` from configuration,
+`rank_similarity`, `is_similar`, `test_similarity` -/
+def runKsim : P String := do
+  let j ← JsonProto.json
+  let dists ← listOf float
+  let a ← listOf nat
+  let b ← listOf nat
+  let edges : List (EdgeRec Float) := dists.map (fun d => { src := 0, dst := 0, dist := d })
+  match SimFn.ofJson numOfJson j with
+  | none => pure "cfgerr"
+  | some f =>
+    match f.rank edges a b, f.test edges a b with
+    | .ok r, .ok t =>
+      pure (joinSp ["ok", floatOut r, if f.isSimilar r then "1" else "0", if t then "1" else "0"])
+    | .error k, _ => pure ("err " ++ errName k)
+    | _, .error k => pure ("err " ++ errName k)
+
+def outcomeOut (nV : Nat) (o : KspOutcome Float) : String :=
+  match o with
+  | .err k => "err " ++ errName k
+  | .ok r => resultOut nV r
+  | .diverges _ => "diverges"
+
+/-- `cfg <algorithm json> <query weight_factor: n | s json> <ordinary case line>`: the algorithm is
+the one the application deserialises from the `[algorithm]` section -/
+def runCfg : P String := do
+  let j ← JsonProto.json
+  let qwf ← optOf JsonProto.json
+  let kc ← kcaseP
+  match AlgCfg.ofJson numOfJson 8 j with
+  | none => pure "cfgerr"
+  | some alg =>
+    let runV := fun (s : Nat) (t : Option Nat) =>
+      runAlgCfg numOfJson kc.cfg kc.gcRev kc.queryK qwf alg s t (kc.q.sched :: kc.scheds) kc.pops
+    let res := if kc.q.edgeOriented then runEdgeWithOutcome kc.cfg runV kc.q.source kc.q.target
+               else runV kc.q.source kc.q.target
+    pure (outcomeOut kc.cfg.nV res)
+
 def run (line : String) : String :=
+  match tokens line with
+  | "kterm" :: rest => (match (runKterm <* endOfLine) rest with | some (s, _) => s | none => "bad-case")
+  | "ksim" :: rest => (match (runKsim <* endOfLine) rest with | some (s, _) => s | none => "bad-case")
+  | "cfg" :: rest => (match (runCfg <* endOfLine) rest with | some (s, _) => s | none => "bad-case")
+  | _ =>
   match kcaseP (tokens line) with
   | none => "bad-case"
   | some (kc, rest) =>
